@@ -123,7 +123,8 @@ UNITS = [
 ]
 
 # property -> equivalence files compiled against the freshly generated GSrc.v
-_HIST = ["EqStats.v", "EqCusum.v", "EqSPC.v", "EqHDDM.v", "EqHDDMW.v", "EqRDDM.v", "EqExec.v"]
+_HIST = ["EqStats.v", "EqCusum.v", "EqSPC.v", "EqHDDM.v", "EqHDDMW.v", "EqRDDM.v", "EqExec.v",
+         "EqSTEPD.v", "EqKSWIN.v", "EqBOCD.v"]  # the last three carry their own warm-up / reset-is-fresh theorems (src_*_warmup_and_reset, src_stepd_run)
 EQ = {
     "C01": _HIST,  # constant-stream silence over the generated code, for every update/reset history
     "C18": ["EqStats.v", "EqSrcStats.v"],
